@@ -15,6 +15,7 @@ import VsgProofs.Lemmas.BaseStructDispatch
 import VsgProofs.Lemmas.BaseVerdict
 import VsgProofs.Lemmas.BaseParensAction
 import VsgModel.Generated.StructParams
+import VsgProofs.Lemmas.BaseMultiDispatch
 namespace Vsgm.C01
 open Vsgm Vsgm.Verdict
 
@@ -88,7 +89,7 @@ theorem codeAllowed_none (n : Nat) (a b : List Str) (h : codeAllowed .none n a b
     the end-name position; at most two tokens per violation -/
 theorem codeAllowed_insert (n : Nat) (a b : List Str) (h : codeAllowed .insert n a b = true) :
     a = b ∨
-    (∃ e, Trace.extras a b = some e ∧ a.Sublist b ∧ (∀ x ∈ e, x ∈ redundantKeywords ∨ x ∈ a) ∧ e.length ≤ n * 2) ∨
+    (∃ e, Trace.extras a b = some e ∧ a.Sublist b ∧ (∀ x ∈ e, x ∈ redundantKeywords ∨ (isWord x = true ∧ x ∈ a)) ∧ e.length ≤ n * 2) ∨
     (∃ e, Trace.extras b a = some e ∧ b.Sublist a ∧ e.length ≤ n * 2) := by
   simp only [codeAllowed, Bool.or_eq_true, beq_iff_eq] at h
   rcases h with h | h | h
@@ -494,7 +495,7 @@ theorem bfix_insert_allowed (E : Base.Env) (owner : String) (o : Base.SOwner) (p
     (hm : Base.removeMode o params = false)
     (h : Base.fixStruct E owner params action old = some (.ok new))
     (hd : Base.designated E o params action = .ok (some ins))
-    (hval : ∀ x ∈ codeSeq fold ins, x ∈ redundantKeywords ∨ x ∈ codeSeq fold old)
+    (hval : ∀ x ∈ codeSeq fold ins, x ∈ redundantKeywords ∨ (isWord x = true ∧ x ∈ codeSeq fold old))
     (hlen : (codeSeq fold ins).length ≤ 2) :
     codeAllowed .insert 1 (codeSeq fold old) (codeSeq fold new) = true := by
   rcases bfix_insert_codeSeq fold E owner o params action old new ho hi hm h with h | ⟨ins', hd', hs, hsub, hl⟩
@@ -510,9 +511,9 @@ theorem bfix_insert_allowed (E : Base.Env) (owner : String) (o : Base.SOwner) (p
     simp only [Bool.and_eq_true, List.all_eq_true, Bool.or_eq_true, decide_eq_true_eq, perEdit]
     refine ⟨?_, by apply decide_eq_true; omega⟩
     intro x hx
-    rcases hs.mem x (hesub.subset hx) with hx | hx
-    · exact hval x hx
-    · exact Or.inr hx
+    obtain ⟨p, sfx, hp, hq⟩ := hs
+    rw [hp, hq] at he
+    exact hval x (Lemmas.extras_mem_of_splice p sfx _ e he x hx)
 
 /-- the parameter tokens of the pinned rules satisfy the hypotheses of `bfix_insert_allowed`: every
     token object a rule of the family inserts is a whitespace token or a code token whose value is one
@@ -556,7 +557,7 @@ theorem bfix_optional_remove_allowed (E : Base.Env) (owner : String) (o : Base.S
     (hne : o ≠ .tokensRightOf) (hm : Base.removeMode o params = true)
     (h : Base.fixStruct E owner params action [a, t] = some (.ok new))
     (hv : ∀ x ∈ codeOf fold t, x ∈ redundantKeywords ∨
-      ∃ y ∈ codeOf fold a, y = x ∨ y = s "end" ∨ y ∈ redundantKeywords) :
+      (isWord x = true ∧ ∃ y ∈ codeOf fold a, y = x ∨ y = s "end" ∨ y ∈ redundantKeywords)) :
     codeSeq fold [a, t] = codeSeq fold new ++ codeOf fold t ∧
       codeAllowed .insert 1 (codeSeq fold [a, t]) (codeSeq fold new) = true := by
   obtain ⟨t0, rest, hl, hc, hold, _⟩ := bfix_optional_remove_codeSeq fold E owner o params action [a, t] new ho hi hne hm h
@@ -575,7 +576,7 @@ theorem bfix_optional_remove_allowed (E : Base.Env) (owner : String) (o : Base.S
     exact Or.inr (Or.inr (Base.removeOk_two _ _ this))
   · simp only [hta, haa, if_true, Bool.false_eq_true, if_false] at hv ⊢
     have := hv _ (List.mem_singleton.mpr rfl)
-    simp only [List.not_mem_nil, false_and, exists_false, or_false] at this
+    simp only [List.not_mem_nil, false_and, exists_false, and_false, or_false] at this
     simp only [codeAllowed, Bool.or_eq_true, List.nil_append]
     exact Or.inr (Or.inr (Base.removeOk_one _ this))
   · simp [hta, codeAllowed]
@@ -1033,5 +1034,255 @@ example :
     ⟨[0, 1], [], [6, 5], []⟩, by decide +kernel, by decide +kernel⟩
 
 /-! ### END ag_bstruct -/
+
+/-! ### BEGIN ag_bmulti (multi-line structure family: multiline_structure, fix.py, single rules) -/
+
+open Base.Multi Base.LineStruct in
+/-- **multiline_structure**, every fix function and every action string: the code sequence is kept by
+    the `insert` branches, by `_fix_assign_on_single_line` and by unknown action strings; by a `remove`
+    branch EXACTLY when no code stood between the first and the last token of the region; by
+    `insert_and_move_comment` EXACTLY when the code of the moved tail commutes with the code it jumps over -/
+theorem bfix_multiStruct_codeSeq (fold : Str → Str) (params action : Base.KV) (old new : List Tok)
+    (h : Base.fixByOwner (MOwner.name .multiStruct) params action old = some (.ok new)) :
+    ∃ ty f act, dget action "type" = .ok ty ∧ msFnOf ty = .ok f ∧ dget action "action" = .ok act ∧
+      match msKind f act with
+      | .insert | .noop | .join => codeSeq fold new = codeSeq fold old
+      | .collapse => 2 ≤ old.length → (codeSeq fold new = codeSeq fold old ↔ codeSeq fold (middle old) = [])
+      | .moveComment => ∃ t0 M D, LayoutOnly old (t0 :: M ++ D) ∧ new = t0 :: D ++ mkCr Base.lineCls :: M ∧
+          (codeSeq fold new = codeSeq fold old ↔ codeSeq fold D ++ codeSeq fold M = codeSeq fold M ++ codeSeq fold D) := by
+  have hm := run_fixM .multiStruct params action old new (mowner_all _) h
+  obtain ⟨ty, f, act, h1, h2, h3, he⟩ := fixMS_effect _ _ action old new hm
+  refine ⟨ty, f, act, h1, h2, h3, ?_⟩
+  cases hk : msKind f act <;> simp only [hk] at he ⊢
+  · exact (he.1.codeSeq fold).symm
+  · intro hlen; exact collapse_codeSeq_iff fold _ old new he hlen
+  · obtain ⟨t0, M, D, hl, hn⟩ := he
+    refine ⟨t0, M, D, hl, hn, ?_⟩
+    rw [hn]
+    exact moveComment_proj (codeSeq fold) (blind_codeSeq fold) _ t0 M D old hl
+  · rw [he]; exact joinAssign_codeSeq fold old
+  · rw [he]
+
+open Base.Multi Base.LineStruct in
+/-- a `remove` branch deletes code when the analysis hands it a region with code in the middle; a
+    region of ONE token is doubled (`[lTokens[0], lTokens[-1]]`) -/
+theorem multiStruct_remove_changes_code :
+    let act : Base.KV := [("type", .dict [("fn", .str "_fix_last_paren_new_line".toList)]), ("action", .str "remove".toList)]
+    (∃ new, Base.fixByOwner (MOwner.name .multiStruct) [] act
+        [⟨9, .code, ['a']⟩, ⟨9, .code, ['b']⟩, ⟨9, .code, [')']⟩] = some (.ok new) ∧
+      codeSeq id new = [['a'], [')']]) ∧
+    (∃ new, Base.fixByOwner (MOwner.name .multiStruct) [] act [⟨9, .code, [')']⟩] = some (.ok new) ∧
+      codeSeq id new = [[')'], [')']]) := by
+  exact ⟨⟨[⟨9, .code, ['a']⟩, ⟨9, .code, [')']⟩], by decide +kernel, by decide⟩,
+    ⟨[⟨9, .code, [')']⟩, ⟨9, .code, [')']⟩], by decide +kernel, by decide⟩⟩
+
+open Base.Multi in
+/-- **multiline_simple_structure**: code kept by "insert" and by unknown types / actions; by "remove"
+    EXACTLY when no code stood between the first and the last token of the region -/
+theorem bfix_simple_codeSeq (fold : Str → Str) (params action : Base.KV) (old new : List Tok)
+    (h : Base.fixByOwner (MOwner.name .simple) params action old = some (.ok new)) :
+    ∃ ty, dget action "type" = .ok ty ∧
+      ((valIs ty "new_line_after_assign" = false ∧ new = old) ∨
+       (valIs ty "new_line_after_assign" = true ∧ ∃ act, dget action "action" = .ok act ∧
+          match simpleKind ty act with
+          | .collapse => 2 ≤ old.length → (codeSeq fold new = codeSeq fold old ↔ codeSeq fold (middle old) = [])
+          | _ => codeSeq fold new = codeSeq fold old)) := by
+  have hm := run_fixM .simple params action old new (mowner_all _) h
+  obtain ⟨ty, h1, hc⟩ := fixSimple_effect _ action old new hm
+  refine ⟨ty, h1, ?_⟩
+  rcases hc with hc | ⟨ht, act, ha, he⟩
+  · exact Or.inl hc
+  · refine Or.inr ⟨ht, act, ha, ?_⟩
+    have hkinds : simpleKind ty act = .insert ∨ simpleKind ty act = .collapse ∨ simpleKind ty act = .noop := by
+      unfold simpleKind; simp only [ht, if_true]
+      by_cases a1 : valIs act "insert" = true
+      · simp [a1]
+      · by_cases a2 : valIs act "remove" = true <;> simp [a1, a2]
+    rcases hkinds with hk | hk | hk <;> simp only [hk] at he ⊢
+    · exact (he.1.codeSeq fold).symm
+    · intro hlen; exact collapse_codeSeq_iff fold _ old new he hlen
+    · rw [he]
+
+open Base.Multi in
+/-- **vsg/rules/fix.py** (function_019, procedure_013, constant_017, signal_017, variable_017,
+    procedure_call_003): for EVERY action and EVERY token list the code sequence is kept -/
+theorem bfix_fixpy_codeSeq (fold : Str → Str) (o : MOwner) (ho : o.usesFixPy = true) (params action : Base.KV)
+    (old new : List Tok) (h : Base.fixByOwner o.name params action old = some (.ok new)) :
+    codeSeq fold new = codeSeq fold old := by
+  have hm := run_fixM o params action old new (mowner_all _) h
+  cases o <;> simp [MOwner.usesFixPy] at ho <;> exact fixNL_codeSeq fold _ action old new hm
+
+open Base.Multi in
+/-- conditional_waveforms_001, concurrent_008, after_002: code kept for every action -/
+theorem bfix_multi_inserters_codeSeq (fold : Str → Str) (o : MOwner)
+    (ho : o = .condWave001 ∨ o = .concurrent008 ∨ o = .after002) (params action : Base.KV) (old new : List Tok)
+    (h : Base.fixByOwner o.name params action old = some (.ok new)) : codeSeq fold new = codeSeq fold old := by
+  have hm := run_fixM o params action old new (mowner_all _) h
+  rcases ho with rfl | rfl | rfl
+  · exact ((fixCondWave_spec _ old new hm).1.codeSeq fold).symm
+  · exact ((fixAlignComment_layoutOnly _ _ action old new hm).codeSeq fold).symm
+  · exact ((fixAlignComment_layoutOnly _ _ action old new hm).codeSeq fold).symm
+
+open Base.Multi in
+/-- **instantiation_005**: "add" keeps the code; "remove" keeps the first token and drops the rest
+    of the region, so the code is kept exactly when the rest held none; any other action object
+    changes nothing -/
+theorem bfix_inst005_codeSeq (fold : Str → Str) (params action : Base.KV) (old new : List Tok)
+    (h : Base.fixByOwner (MOwner.name .inst005) params action old = some (.ok new)) :
+    (action.get "_str" = some (.str "add".toList) → codeSeq fold new = codeSeq fold old) ∧
+    (action.get "_str" = some (.str "remove".toList) →
+      (codeSeq fold new = codeSeq fold old ↔ codeSeq fold (old.drop 1) = [])) ∧
+    (action.get "_str" ≠ some (.str "add".toList) → action.get "_str" ≠ some (.str "remove".toList) → new = old) := by
+  have hm := run_fixM .inst005 params action old new (mowner_all _) h
+  refine ⟨fun ha => ((fixInst005_add_spec _ action old new hm ha).1.codeSeq fold).symm, fun ha => ?_,
+    fun h1 h2 => fixInst005_other _ action old new hm h1 h2⟩
+  obtain ⟨t, r, rfl, rfl⟩ := fixInst005_remove_eq _ action old new hm ha
+  have e1 : ∀ cc, codeSeq fold [t, Base.LineStruct.mkWs cc] = codeSeq fold [t] := by
+    intro cc; simp [codeSeq, codeOf, Tok.isCode, Base.LineStruct.mkWs]
+  have e2 : codeSeq fold (t :: r) = codeSeq fold [t] ++ codeSeq fold r := by
+    rw [← codeSeq_append]; rfl
+  rw [e1, e2, List.drop_succ_cons, List.drop_zero]
+  constructor
+  · intro hh
+    have := congrArg List.length hh
+    simp only [List.length_append] at this
+    exact List.eq_nil_of_length_eq_zero (by omega)
+  · intro hh; rw [hh, List.append_nil]
+
+open Base.Multi Base.LineStruct in
+/-- **comment_011** rotates the line at `iToken`: `old[iToken:] ++ [line break] ++ old[:iToken]`.  The code
+    sequence is kept EXACTLY when the code of the two parts commutes (the analysis cuts in front of the
+    trailing comment: nothing but the comment moves) -/
+theorem bfix_comment011_codeSeq_iff (fold : Str → Str) (params action : Base.KV) (old new : List Tok) (i : Int)
+    (h : Base.fixByOwner (MOwner.name .comment011) params action old = some (.ok new))
+    (hi : dget action "iToken" = .ok (.int i)) :
+    new = old.drop (pyCut old.length i) ++ [mkCr Base.lineCls] ++ old.take (pyCut old.length i) ∧
+    (codeSeq fold new = codeSeq fold old ↔
+      codeSeq fold (old.drop (pyCut old.length i)) ++ codeSeq fold (old.take (pyCut old.length i)) =
+        codeSeq fold (old.take (pyCut old.length i)) ++ codeSeq fold (old.drop (pyCut old.length i))) := by
+  have hm := run_fixM .comment011 params action old new (mowner_all _) h
+  obtain ⟨v, b, hv, hb, hn⟩ := fixComment011_eq _ action old new hm
+  rw [hi] at hv; cases hv
+  simp only [asBound] at hb; cases hb
+  have hn' : new = old.drop (pyCut old.length i) ++ [mkCr Base.lineCls] ++ old.take (pyCut old.length i) := hn
+  refine ⟨hn', ?_⟩
+  rw [hn']
+  exact rotate_proj (codeSeq fold) (blind_codeSeq fold) _ old _
+
+open Base.Multi in
+/-- with a cut point in the middle of the code the line is re-ordered (never produced by the analysis) -/
+theorem comment011_codeSeq_false :
+    ∃ new, Base.fixByOwner (MOwner.name .comment011) [] [("iToken", .int 1)] [⟨9, .code, ['a']⟩, ⟨9, .code, ['b']⟩] = some (.ok new) ∧
+      codeSeq id new = [['b'], ['a']] :=
+  ⟨[⟨9, .code, ['b']⟩, ⟨Gen.crCls, .cr, ['\n']⟩, ⟨9, .code, ['a']⟩], by decide +kernel, by decide⟩
+
+open Base.Multi Base.LineStruct in
+/-- **when_001** moves the last token of the region (behind an optional trailing blank) to the front:
+    `m ++ [x] (++ [blank]) ↦ [blank, x] ++ m`.  Code kept EXACTLY when `x` commutes with the code of `m`
+    (the analysis starts the region behind the last code token: `m` is whitespace, line breaks, comments) -/
+theorem bfix_when001_codeSeq_iff (fold : Str → Str) (params action : Base.KV) (old new : List Tok)
+    (h : Base.fixByOwner (MOwner.name .when001) params action old = some (.ok new)) :
+    ∃ m x tail, old = m ++ [x] ++ tail ∧ (∀ t ∈ tail, isWs t = true) ∧ m ≠ [] ∧ new = mkWs Base.lineCls :: x :: m ∧
+      (codeSeq fold new = codeSeq fold old ↔ codeOf fold x ++ codeSeq fold m = codeSeq fold m ++ codeOf fold x) := by
+  have hm := run_fixM .when001 params action old new (mowner_all _) h
+  obtain ⟨m, x, tail, hl, ht, hne, hn⟩ := fixWhen001_eq _ old new hm
+  refine ⟨m, x, tail, hl, ht, hne, hn, ?_⟩
+  rw [hn, hl, ← codeSeq_singleton]
+  exact when001_proj (codeSeq fold) (blind_codeSeq fold) _ m x tail ht
+
+open Base.Multi in
+/-- the guard is needed: handed a region with code in front of the moved token, the fix re-orders it -/
+theorem when001_codeSeq_false :
+    ∃ new, Base.fixByOwner (MOwner.name .when001) [] [] [⟨9, .code, ['b']⟩, ⟨9, .code, "when".toList⟩] = some (.ok new) ∧
+      codeSeq id new = ["when".toList, ['b']] :=
+  ⟨[⟨Gen.wsCls, .ws, [' ']⟩, ⟨9, .code, "when".toList⟩, ⟨9, .code, ['b']⟩], by decide +kernel, by decide⟩
+
+open Base.Multi in
+/-- **process_021**: code kept when every blank_line token of the region is followed by its line break
+    (C03 `process021_deletes_code` is the counterexample without the guard) -/
+theorem bfix_process021_codeSeq_partial (fold : Str → Str) (params action : Base.KV) (old new : List Tok)
+    (h : Base.fixByOwner (MOwner.name .process021) params action old = some (.ok new))
+    (hg : blankThenCr old = true) : codeSeq fold new = codeSeq fold old := by
+  have hm := run_fixM .process021 params action old new (mowner_all _) h
+  obtain ⟨st, _, hc⟩ := fixProcess021_cases _ params old new hm
+  rcases hc with ⟨_, h1⟩ | ⟨_, _, h1⟩ | ⟨_, _, h1⟩
+  · exact ((dropBlankAndNext_layoutOnly old new h1 hg).1.codeSeq fold).symm
+  · exact ((insertBlankBeforeLast_layoutOnly _ old new h1).codeSeq fold).symm
+  · rw [h1]
+
+open Base.Multi in
+/-- **process_026 / process_027**: "Insert" keeps the code; the removing branch `old[:s] ++ old[e:]` keeps it
+    exactly when the cut `old[s:e]` holds none (cut points `s ≤ e`) -/
+theorem bfix_cut_codeSeq_iff (fold : Str → Str) (old : List Tok) (s e : Nat) (hse : s ≤ e) :
+    codeSeq fold (old.take s ++ old.drop e) = codeSeq fold old ↔ codeSeq fold ((old.take e).drop s) = [] := by
+  rw [cut_proj (codeSeq fold) (Base.LineStruct.blind_codeSeq fold) old s e hse, codeSeq_append]
+  constructor
+  · intro hh
+    have := congrArg List.length hh
+    simp only [List.length_append] at this
+    exact List.eq_nil_of_length_eq_zero (by omega)
+  · intro hh; rw [hh, List.append_nil]
+
+open Base.Multi in
+/-- **after_001** (documented to add code): the region is prefixed with ` after <magnitude> <units>`; the
+    code sequence grows by exactly those three tokens -/
+theorem bfix_after001_adds (fold : Str → Str) (params action : Base.KV) (old new : List Tok)
+    (h : Base.fixByOwner (MOwner.name .after001) params action old = some (.ok new)) :
+    ∃ mv m uv u, pget params "magnitude" = .ok mv ∧ pyStr mv = .ok m ∧ pget params "units" = .ok uv ∧
+      asStr "units" uv = .ok u ∧ new = afterClause Base.multiEnv m u ++ old ∧
+      codeSeq fold new = codeSeq fold [Base.multiEnv.inst Gen.afterKeywordCls "after".toList,
+        Base.multiEnv.inst Gen.todoCls m, Base.multiEnv.inst Gen.todoCls u] ++ codeSeq fold old ∧
+      commentSeq new = commentSeq old := by
+  have hm := run_fixM .after001 params action old new (mowner_all _) h
+  obtain ⟨mv, m, uv, u, h1, h2, h3, h4, hn⟩ := fixAfter001_eq _ params old new hm
+  refine ⟨mv, m, uv, u, h1, h2, h3, h4, hn, ?_, ?_⟩
+  · rw [hn]; exact afterClause_codeSeq fold _ m u old
+  · rw [hn, afterClause_commentSeq]
+    have ka : Base.multiEnv.kindOf Base.multiEnv.afterCls = .code := by decide +kernel
+    have kt : Base.multiEnv.kindOf Base.multiEnv.todoCls = .code := by decide +kernel
+    have k1 : ∀ s, (Base.multiEnv.inst Base.multiEnv.afterCls s).isCommentLike = false := by
+      intro s; simp [MEnv.inst, Tok.isCommentLike, ka, Kind.isCommentLike]
+    have k2 : ∀ s, (Base.multiEnv.inst Base.multiEnv.todoCls s).isCommentLike = false := by
+      intro s; simp [MEnv.inst, Tok.isCommentLike, kt, Kind.isCommentLike]
+    simp only [commentSeq, List.flatMap_cons, List.flatMap_nil, k1, k2, Bool.false_eq_true, if_false, List.append_nil,
+      List.nil_append]
+
+/-- with the default parameters: `after`, `1`, `ns` -/
+example : codeSeq id (Base.Multi.afterClause Base.multiEnv ['1'] "ns".toList) = ["after".toList, ['1'], "ns".toList] := by
+  decide +kernel
+
+open Base.Multi in
+/-- **after_003** (documented to remove code): only the LAST token of the region survives -/
+theorem bfix_after003_removes (fold : Str → Str) (params action : Base.KV) (old new : List Tok)
+    (h : Base.fixByOwner (MOwner.name .after003) params action old = some (.ok new)) :
+    ∃ x, old = old.dropLast ++ [x] ∧ new = [x] ∧
+      codeSeq fold old = codeSeq fold old.dropLast ++ codeSeq fold new := by
+  have hm := run_fixM .after003 params action old new (mowner_all _) h
+  obtain ⟨x, hl, hn⟩ := fixAfter003_eq old new hm
+  refine ⟨x, hl, hn, ?_⟩
+  rw [hn]
+  conv => lhs; rw [hl]
+  rw [codeSeq_append]
+
+open Base.Multi in
+/-- **process_029** (documented to rewrite code): the new region does not depend on the old tokens at
+    all — it is `rising_edge(clk)` / `falling_edge(clk)` or `clk'event and clk = '1'` built from the action -/
+theorem bfix_process029_rewrites (params action : Base.KV) (old new : List Tok)
+    (h : Base.fixByOwner (MOwner.name .process029) params action old = some (.ok new)) :
+    ∃ conv, dget action "convert_to" = .ok conv ∧
+      ((valIs conv "edge" = true ∧ ∃ e clk, dget action "edge" = .ok e ∧ dgetStr action "clock" = .ok clk ∧
+          new = edgeCall Base.multiEnv (valIs e "rising_edge") clk) ∨
+       (valIs conv "edge" = false ∧ ∃ clk e, dgetStr action "clock" = .ok clk ∧ dgetStr action "edge" = .ok e ∧
+          new = eventExpr Base.multiEnv clk e)) :=
+  fixProcess029_eq _ action old new (run_fixM .process029 params action old new (mowner_all _) h)
+
+/-- the two replacement texts -/
+example : codeSeq id (Base.Multi.edgeCall Base.multiEnv true "clk".toList) =
+    ["rising_edge".toList, ['('], "clk".toList, [')']] ∧
+    codeSeq id (Base.Multi.eventExpr Base.multiEnv "clk".toList "'1'".toList) =
+    ["clk".toList, ['\''], "event".toList, "and".toList, "clk".toList, ['='], "'1'".toList] := by
+  constructor <;> decide +kernel
+
+/-! ### END ag_bmulti -/
 
 end Vsgm.C01
